@@ -14,9 +14,9 @@
 (* automaton below lexes the same text one token per step and must hold    *)
 (* the recorded token at every step (TokenOK).  Where the text has a       *)
 (* character no rule can start with (or a rule cannot finish: an           *)
-(* unterminated string) the automaton stops: the recorded run must then    *)
-(* carry a token recognition error (ErrorReported); ANTLR's resumption     *)
-(* after such an error is not modelled.                                    *)
+(* unterminated string) the automaton does what ANTLR does: it drops the   *)
+(* text up to and including the first character no rule could take, counts *)
+(* one token recognition error (ErrorsCounted) and goes on.                *)
 (*                                                                         *)
 (* RuleText is the body of every lexer rule as this module transcribes it  *)
 (* (blanks and line breaks squeezed out); Artefacts.tla compares it with   *)
@@ -30,9 +30,10 @@ Docs == ndJsonDeserialize("lexer_docs.ndjson")     \* [id, text, tokens : << <<t
 VARIABLES di,       \* index of the document
           doc,      \* the record (read once)
           cx,       \* the cleaned text as arrays: [n, ch, L, D, H]
-          ph,       \* "load" | "clean" | "scan" | "emit" | "done" | "stuck"
-          pos, line, col, modes, cur, k
-vars == <<di, doc, cx, ph, pos, line, col, modes, cur, k>>
+          ph,       \* "load" | "clean" | "scan" | "emit" | "skip" | "done"
+          pos, line, col, modes, cur, k,
+          nerr      \* token recognition errors so far
+vars == <<di, doc, cx, ph, pos, line, col, modes, cur, k, nerr>>
 
 (***************************************************************************)
 (* 1. The pre-pass of ParseDSL                                             *)
@@ -171,6 +172,42 @@ NlEnds(C, i) == LET once == UNION { UNION { WsPrefixes(C, b) : b \in LineEnds(C,
 SetMax(S) == IF S = {} THEN 0 ELSE CHOOSE y \in S : \A z \in S : y >= z
 MNewline(C, i) == SetMax(NlEnds(C, i))
 
+\* Where no rule accepts any prefix of what stands at i, ANTLR's simulation has still read on for as long as SOME rule could continue:
+\* up to the "dead" index, the first character no rule can take (the end of input counts as one). It reports the text i..dead as a
+\* token recognition error, drops it - the dead character included, unless it is the end of input - and starts again behind it.
+RECURSIVE CommonPrefix(_, _, _, _)
+CommonPrefix(C, i, lit, d) == IF d < Len(lit) /\ Ch(C, i + d) = SubSeq(lit, d + 1, d + 1) THEN CommonPrefix(C, i, lit, d + 1) ELSE d
+\* an escape sequence at j (a backslash stands there): <<TRUE, index behind it>> or <<FALSE, dead index>>
+RECURSIVE HexCount(_, _, _)
+HexCount(C, j, max) == IF max > 0 /\ IsH(C, j) THEN 1 + HexCount(C, j + 1, max - 1) ELSE 0
+Oct(C, j) == Ch(C, j) \in {"0", "1", "2", "3", "4", "5", "6", "7"}
+EscScan(C, j) ==
+  LET c == Ch(C, j + 1) IN
+  IF c \in {"a", "b", "f", "n", "r", "t", "v", "\"", "'", "\\", "?", "`"} THEN <<TRUE, j + 2>>
+  ELSE IF c \in {"x", "X"} THEN (IF HexCount(C, j + 2, 2) = 2 THEN <<TRUE, j + 4>> ELSE <<FALSE, j + 2 + HexCount(C, j + 2, 2)>>)
+  ELSE IF c = "u" THEN (IF HexCount(C, j + 2, 4) = 4 THEN <<TRUE, j + 6>> ELSE <<FALSE, j + 2 + HexCount(C, j + 2, 4)>>)
+  ELSE IF c = "U" THEN (IF HexCount(C, j + 2, 8) = 8 THEN <<TRUE, j + 10>> ELSE <<FALSE, j + 2 + HexCount(C, j + 2, 8)>>)
+  ELSE IF c \in {"0", "1", "2", "3"} THEN (IF Oct(C, j + 2) /\ Oct(C, j + 3) THEN <<TRUE, j + 4>> ELSE IF Oct(C, j + 2) THEN <<FALSE, j + 3>> ELSE <<FALSE, j + 2>>)
+  ELSE <<FALSE, j + 1>>
+RECURSIVE QuotedDead(_, _, _, _)
+\* dead index of an (escaped) quoted string whose body starts at j and that never closes: oneline = a line break is the dead character
+QuotedDead(C, j, q, oneline) ==
+  IF j > C.n THEN C.n + 1
+  ELSE IF Lit(C, j, q) # 0 THEN 0                                    \* (it closes: not dead at all)
+  ELSE IF Ch(C, j) = "\\" THEN (IF EscScan(C, j)[1] THEN QuotedDead(C, EscScan(C, j)[2], q, oneline) ELSE EscScan(C, j)[2])
+  ELSE IF oneline /\ Ch(C, j) \in {"\n", "\r"} THEN j
+  ELSE QuotedDead(C, j + 1, q, oneline)
+StringDead(C, i) ==
+  LET q == Ch(C, i)
+      qqq == q \o q \o q
+  IN IF q \notin {"\"", "'"} THEN i
+     ELSE Max2(QuotedDead(C, i + 1, q, TRUE), IF Lit(C, i, qqq) # 0 THEN QuotedDead(C, i + 3, qqq, FALSE) ELSE i + CommonPrefix(C, i, qqq, 0))
+DefaultLiterals == <<"#", ":", ",", "and", "or", "but not", "from", "module", "model", "schema", "extend", "type", "condition", "relations", "relation", "define", "with",
+                     "==", "!=", "in", "<", "<=", ">=", ">", "&&", "||", "[", "]", "{", "}", "(", ")", ".", "-", "!", "?", "+", "*", "/", "%", "true", "false", "null", "//", "0x">>
+DeadIndex(C, i, inCondDef) ==
+  IF inCondDef THEN i          \* every rule of that mode that could start with the character accepts it (identifier, white space, a one-character literal)
+  ELSE Max2(StringDead(C, i), i + SetMax({ CommonPrefix(C, i, DefaultLiterals[j], 0) : j \in 1..Len(DefaultLiterals) }))
+
 \* the rules of the default mode in the order the grammar writes them: <<token type the rule emits, end of its match>>
 Default(C, i) == <<
   <<"HASH", Lit(C, i, "#")>>, <<"COLON", Lit(C, i, ":")>>, <<"COMMA", Lit(C, i, ",")>>,
@@ -205,14 +242,15 @@ Hidden(ty) == ty = "CEL_COMMENT"
 (***************************************************************************)
 (* 4. The automaton: one token per two steps (scan, emit)                  *)
 (***************************************************************************)
-Init == /\ di \in 1..Len(Docs) /\ doc = <<>> /\ cx = <<>> /\ ph = "load" /\ pos = 1 /\ line = 0 /\ col = 0 /\ modes = <<>> /\ cur = <<"", 0>> /\ k = 0
-Load == /\ ph = "load" /\ doc' = Docs[di] /\ ph' = "clean" /\ UNCHANGED <<di, cx, pos, line, col, modes, cur, k>>
-CleanStep == /\ ph = "clean" /\ cx' = Arrays(Clean(doc.text)) /\ ph' = "scan" /\ UNCHANGED <<di, doc, pos, line, col, modes, cur, k>>
+Init == /\ di \in 1..Len(Docs) /\ doc = <<>> /\ cx = <<>> /\ ph = "load" /\ pos = 1 /\ line = 0 /\ col = 0 /\ modes = <<>> /\ cur = <<"", 0>> /\ k = 0 /\ nerr = 0
+Load == /\ ph = "load" /\ doc' = Docs[di] /\ ph' = "clean" /\ UNCHANGED <<di, cx, pos, line, col, modes, cur, k, nerr>>
+CleanStep == /\ ph = "clean" /\ cx' = Arrays(Clean(doc.text)) /\ ph' = "scan" /\ UNCHANGED <<di, doc, pos, line, col, modes, cur, k, nerr>>
 Scan == /\ ph = "scan"
         /\ IF pos > cx.n THEN cur' = <<"EOF", pos>> /\ ph' = "emit"
            ELSE LET b == Best(IF modes = <<>> THEN Default(cx, pos) ELSE CondDef(cx, pos))
-                IN cur' = b /\ ph' = IF b[2] = 0 THEN "stuck" ELSE "emit"
-        /\ UNCHANGED <<di, doc, cx, pos, line, col, modes, k>>
+                IN IF b[2] # 0 THEN cur' = b /\ ph' = "emit"
+                   ELSE cur' = <<"", DeadIndex(cx, pos, modes # <<>>)>> /\ ph' = "skip"
+        /\ UNCHANGED <<di, doc, cx, pos, line, col, modes, k, nerr>>
 RECURSIVE Advance(_, _, _, _, _)
 \* position after the text i..e-1: only '\n' starts a new line, columns count characters
 Advance(C, i, e, ln, cl) == IF i >= e THEN <<ln, cl>> ELSE IF C.ch[i] = "\n" THEN Advance(C, i + 1, e, ln + 1, 0) ELSE Advance(C, i + 1, e, ln, cl + 1)
@@ -224,8 +262,15 @@ Emit == /\ ph = "emit"
                 /\ modes' = IF modes = <<>> /\ cur[1] = "CONDITION" THEN <<"CONDITION_DEF">>
                             ELSE IF modes # <<>> /\ cur[1] = "RPAREN" THEN <<>> ELSE modes
                 /\ ph' = "scan"
-        /\ UNCHANGED <<di, doc, cx, cur>>
-Next == Load \/ CleanStep \/ Scan \/ Emit
+        /\ UNCHANGED <<di, doc, cx, cur, nerr>>
+\* a token recognition error: the text up to and including the dead character is dropped (the end of input is not a character)
+Skip == /\ ph = "skip"
+        /\ LET next == IF cur[2] <= cx.n THEN cur[2] + 1 ELSE cx.n + 1
+                a == Advance(cx, pos, next, line, col)
+           IN pos' = next /\ line' = a[1] /\ col' = a[2]
+        /\ nerr' = nerr + 1 /\ ph' = "scan"
+        /\ UNCHANGED <<di, doc, cx, modes, cur, k>>
+Next == Load \/ CleanStep \/ Scan \/ Emit \/ Skip
 Spec == Init /\ [][Next]_vars
 
 \* the token the automaton holds after Scan, as the hook logs it
@@ -235,8 +280,6 @@ TokenOK == ph = "emit" => /\ k + 1 <= Len(doc.tokens)
                           /\ doc.tokens[k + 1] = Held
 \* the automaton ends with the recorded run (nothing recorded beyond EOF)
 AllTokens == ph = "done" => k = Len(doc.tokens)
-\* a character no rule accepts there: the real lexer reported it
-ErrorReported == ph = "stuck" => doc.lexerr
-\* ... and a text that lexes completely was lexed without a lexer error
-NoSpuriousError == ph = "done" => ~doc.lexerr
+\* as many token recognition errors as the run reported
+ErrorsCounted == ph = "done" => nerr = doc.nlexerr
 =============================================================================
